@@ -982,6 +982,11 @@ pub fn decode_body(ver: Ver, ty: u8, flags: u8, body: &[u8], w: usize) -> Result
             if codes.is_empty() {
                 return Err("no suback code".into());
             }
+            // v3.1.1: granted QoS 0 / 1 / 2 or 0x80 [MQTT-3.9.3-2]; v5.0: the SUBACK reason codes of table 3.9.3
+            let legal: &[u8] = if v5 { &[0x00, 0x01, 0x02, 0x80, 0x83, 0x87, 0x8F, 0x91, 0x97, 0x9E, 0xA1, 0xA2] } else { &[0x00, 0x01, 0x02, 0x80] };
+            if codes.iter().any(|c| !legal.contains(c)) {
+                return Err("suback code".into());
+            }
             AP::Suback { ver, pid, props, codes }
         }
         10 => {
@@ -1016,6 +1021,9 @@ pub fn decode_body(ver: Ver, ty: u8, flags: u8, body: &[u8], w: usize) -> Result
             }
             let props = if v5 { dec_props(&mut r, Loc::Unsuback)? } else { vec![] };
             let codes = if v5 { r.rest() } else { vec![] };
+            if codes.iter().any(|c| ![0x00u8, 0x11, 0x80, 0x83, 0x87, 0x8F, 0x91].contains(c)) {
+                return Err("unsuback code".into());
+            }
             AP::Unsuback { ver, pid, props, codes }
         }
         12 => {
